@@ -47,7 +47,9 @@ CMD = 'management.commands.evolve'
 READ_PREFIXES = ('PRAGMA', 'SELECT', 'SHOW')
 STATE_CALLS = ('record_applied_migrations', 'apply_migrations', 'migrate',
                'record_applied', 'record_unapplied', 'unapply_migration',
-               'apply_migration')
+               'apply_migration',
+               # MigrationRecorder.ensure_schema() creates django_migrations
+               'ensure_schema')
 
 
 def r1_gate_dominates(ctx):
